@@ -145,6 +145,19 @@ Definition same_enforce (x y : event) : bool :=
   | _, _ => false
   end.
 
+(* "acceptance by every one of its policies": every policy of every deciding rule WAS ASKED - for each
+   enforce call the property demands, the same log shows the can_enforce call of that policy with the
+   same context, the same set of signers and the same rule (the answer itself is judged by
+   [rule_status] above).  No exception for any context: in particular not when the contract the
+   context calls is that very policy contract, a verifier, a signer or the account itself. *)
+Definition same_can (p : policy) (c : ctx) (au : list signer) (r : rule) (e : event) : bool :=
+  match e with
+  | ECan p' c' au' r' => N.eqb p p' && ctx_eqb c c' && same_signers au au' && rule_eqb r r'
+  | _ => false
+  end.
+Definition asked (l enf : list event) : bool :=
+  forallb (fun e => match e with EEnforce p c au r => existsb (same_can p c au r) l | _ => true end) enf.
+
 (* both directions: success only if ..., and conversely *)
 Definition agrees (x : expect) (out : outcome) : bool :=
   match x, out with
@@ -152,7 +165,7 @@ Definition agrees (x : expect) (out : outcome) : bool :=
   | XSilent, Ok _ => false         (* ... so it can never end in a success *)
   | XFail, Fail => true
   | XFail, Ok _ => false
-  | XOk enf, Ok (_, l) => list_eqb same_enforce (filter is_enforce l) enf
+  | XOk enf, Ok (_, l) => list_eqb same_enforce (filter is_enforce l) enf && asked l enf
   | XOk _, Fail => false
   end.
 (* an entry point behind the check: a success needs the check to pass; a refusal is legitimate when
